@@ -239,5 +239,62 @@ PROPS["C07"] = {
     "assumptions": ["the client reads what it is sent (no back-pressure)", "EnvSane: backend services never report MissedKeepAlive themselves"],
 }
 
+TB_LISTENER = TB_COMMON + [
+    "structure facts of listener.rs / lib.rs (select! branch order and `biased`, what is awaited before tracker.spawn, which waits sit under which timeout, builder chains) are re-extracted by pattern matching in extract/extract.py on every run; a rewrite the patterns do not recognise yields `none` or `false` and fails the instantiation theorem (reported, never assumed)",
+    "tokio (select!, timeout_at, TaskTracker, CancellationToken), the kernel's TCP accept queue and real time: modelled as interleavings / instants and sampled by the loopback runs (tolerance 350 ms)",
+]
+PROPS["C14"] = {
+    "runner": "c14",
+    "design_ref": "DESIGN.md §6 C14",
+    "technique": "Lean 4 theorems over the plumbing and deadline models, for every configuration and every client timing: with both hops present each connection runs under exactly the operator's frame limit, cookie expiry, secret and timeout (composed with the C04/C02 theorems of the connection machine), and with one deadline from the accept covering the PROXY header wait and the protocol the server closes within the timeout whatever the client withholds; both instantiated by `decide` at structure facts re-extracted from listener.rs and lib.rs; differential runs against passage::start(Config) and the real Listener on loopback TCP",
+    "level_text": "Machine-checked proofs: for every Plumbing with all hops present and every Config, the connection's configuration is exactly (auth_secret, auth_cookie_expiry, max_packet_length, timeout) — and then C04's refusal-at-the-prefix theorem and C02's expiry/address theorem hold at the OPERATOR's values; every missing hop is observable for some configuration; for every Deadline structure with the header wait and the protocol under one deadline measured from the accept, and every client timing (header never / at any instant, protocol never finishing / finishing at any instant) the close instant exists and is ≤ timeout, a client that finishes in time is not cut short, and every missing deadline is observable. The plumbing and deadline facts of the current source are re-extracted each run and the instantiation theorems re-proved. Real runs: servers started from a Config value by passage::start on loopback; probes declare frame lengths around the configured and the default limit, present cookies aged around the configured and the default expiry signed with the configured or another secret, and stay silent / drip one byte every 40 ms / stop after Login Start / sit in the configuration phase (gated backend) / withhold or delay the PROXY header; close instants are measured from the accept.",
+    "level_note": "Partial by nature: the timers are tokio's and the clock is real — the model carries which waits are under which deadline; elapsed times are sampled with 350 ms tolerance. Trusted: Lean kernel; extraction patterns; cookie ages kept ≥ 5 s from the boundary; the keep-alive-for-ever client (first Keep Alive after 16 s) runs in the thorough tier only.",
+    "lean_modules": ["Passage.Props.C14"],
+    "cases": {"quick": 36, "thorough": 240},
+    "rule": "one third limit probes (configured max from {64..100000}, declared length max-1/max/max+1/10000/10001/random), one third cookie probes (configured expiry from {30, 600, 21600, 100000} s, age around it and around the default, 1 in 4 with a foreign secret), one third deadline probes (timeout 1 s / 2 s; PROXY off: silent, drip, after Login Start, in configuration with a gated backend, or a finishing status client; PROXY on: header withheld, partial header, header after 800 ms then silent / login / configuration / finishing); thorough adds two 18–20 s keep-alive-answering clients; every case is non-trivial; distinct = distinct request lines",
+    "trusted_base": TB_LISTENER,
+    "assumptions": ["loopback latency and scheduling noise stay below the 350 ms tolerance"],
+    "timeout": {"quick": 1800, "thorough": 7200},
+}
+PROPS["C15"] = {
+    "runner": "c15",
+    "design_ref": "DESIGN.md §6 C15",
+    "technique": "Lean 4 theorems over the admission model for every limiter configuration, arithmetic and arrival history: served ⇔ effective address exists and the limiter admits it; the limiter state moves only by its own enqueue on the effective address; connections without a valid header are closed unserved and are invisible to every other connection's verdict (history-deletion theorem by induction); the limiter's view is the (effective address, time) subsequence; call order and arguments instantiated at re-extracted facts; differential runs of the real Listener on loopback with PROXY v1/v2 headers from several peers",
+    "level_text": "Machine-checked proofs for every limiter configuration and arithmetic (reusing the C13 limiter model), every arrival history and both PROXY settings: a connection is served under address a exactly when its effective address is a (announced source with a valid header, the TCP peer for LOCAL/UNKNOWN headers or with PROXY off) and the limiter admits a; the limiter's successor state is its own enqueue result on a; an invalid header yields closed-unserved and leaves the limiter untouched; over whole histories the served/refused verdicts equal those of the history with all invalid-header connections deleted, and equal the limiter run on the sequence of effective addresses. The facts that the limiter is consulted with client_addr.ip() before Connection::new and that the connection receives that same address are re-extracted. Real runs: sequences of 4–14 connections from 127.0.0.1–3 with headers from a 14-entry menu (v1 TCP4/TCP6/UNKNOWN, v2 PROXY TCP4/TCP6/LOCAL, same source through different peers, IPv4-mapped IPv6, absent, malformed, unknown family, bad version, disabled version); each verdict (status reply / closed with zero bytes) and the address seen by the status adapter are compared with the model and with a second RateLimiter instance; optional login checks the address seen by authentication/filter/strategy adapters and inside the issued cookie.",
+    "level_note": "Trusted: Lean kernel; the PROXY parser (crate proxy-header) is outside the model — its verdict class per connection is recorded from the real parser and handed to the model; limiter window 3600 s so all arrivals share one window (the limiter's time behaviour is C13's subject).",
+    "lean_modules": ["Passage.Props.C15"],
+    "cases": {"quick": 40, "thorough": 1500},
+    "rule": "random PROXY setting (on 3 in 4; allowed versions v1+v2 / v1 / v2), limiter off (1 in 5) or limit 1–3, 4–14 sequential connections each from one of three loopback peers with a header drawn from three hot menu entries (2 in 3) or the whole menu, 1 in 3 with a final full login; non-trivial = every history; distinct = distinct request lines",
+    "trusted_base": TB_LISTENER + ["crate proxy-header (verdict class per header recorded from the real parser)"],
+    "assumptions": ["connections arrive one after another (each verdict awaited) so the arrival order is defined"],
+    "timeout": {"quick": 1800, "thorough": 14400},
+}
+PROPS["C16"] = {
+    "runner": "c16",
+    "design_ref": "DESIGN.md §6 C16",
+    "technique": "Lean 4 theorem by induction over arbitrary interleavings of the listener model (arrivals, accept-loop steps, client inputs, task completions, stop): for every await structure in which no client input is awaited before the per-connection task is spawned the accept loop is never blocked on a client, an arrival is accepted by the next loop step, and one connection's inputs never change another's task; instantiated by `decide` at the structure re-extracted from listener.rs; loopback runs measure a well-behaved client's status latency while others stall at every stage",
+    "level_text": "Machine-checked proofs for every interleaving: if the skeleton awaits no client input before tracker.spawn, then in every reachable state the loop is running, stopped or returned — never waiting on a connection; with a non-empty backlog and no stop pending the next loop step spawns the head connection's task; clientInput/taskFinish of connection c leave every other connection's task unchanged. The skeleton of the current source is re-extracted and the hypothesis re-proved each run; a pinned witness shows the inline-header skeleton blocks a later client for ever. Real runs: 0–4 connections stalled before the PROXY header, inside it, mid-frame, after Login Start, after the Encryption Request, in the configuration phase without answering (gated backend), or after 4 KiB of junk, with PROXY and limiter on/off; then a well-behaved client's status exchange must complete within 1 s (connection timeout 4 s).",
+    "level_note": "Partial by nature: the proof is about the await structure; tokio's scheduler fairness, the kernel accept queue and CPU starvation are outside it and sampled by the real runs.",
+    "lean_modules": ["Passage.Props.C16"],
+    "cases": {"quick": 40, "thorough": 1200},
+    "rule": "PROXY on 2 in 3, limiter on 1 in 2, 0–4 stalled clients each at a random stage of the menu for that setting; non-trivial = at least one stalled client; distinct = distinct stage lists",
+    "trusted_base": TB_LISTENER,
+    "assumptions": ["a runtime worker is available to the accept loop (no CPU starvation)"],
+    "timeout": {"quick": 1800, "thorough": 14400},
+}
+PROPS["C17"] = {
+    "runner": "c17",
+    "design_ref": "DESIGN.md §6 C17",
+    "technique": "Lean 4 theorems by induction over arbitrary interleavings of the listener model: with the stop branch polled first no connection is ever accepted after the stop request (ghost list stays empty), the stop request changes no task and disables none of their steps, and with the tracker awaited listen() returns only in states where every spawned task is done (and can return once they are); instantiated by `decide` at the re-extracted structure; loopback runs race the stop signal against in-flight sessions and new arrivals, including the schedule where stop and arrival are both pending when the loop runs",
+    "level_text": "Machine-checked proofs for every interleaving: stopBiased ⇒ acceptedAfterStop = [] in every reachable state; requestStop leaves tasks and their enabled steps unchanged; waitsTracker ⇒ (loop = returned ⇒ all tasks done), and from stopped with all tasks done one step returns. The select! branch order / `biased`, tracker.close() and tracker.wait().await are re-extracted each run. Real runs: 0–4 in-flight clients (connected and silent; paused after Login Start and cooperating after the stop; in configuration waiting for a backend that answers at once / 300 / 600 ms after the stop), stop requested, 0–2 late connections probed for a status reply, then: every cooperating client received its Transfer, no late connection was served, listen() returned, and not before the last session ended. One case per run repeats 16 times (64 thorough) the schedule 'cancel(); connect(); yield' on a current-thread runtime that polls the I/O driver every tick, so the accept loop next runs with both branches ready.",
+    "level_note": "Partial by nature: interleavings are modelled at the granularity of awaits; the kernel may complete the TCP handshake of a late connection (not served means never accepted); timing by real clock.",
+    "lean_modules": ["Passage.Props.C17"],
+    "cases": {"quick": 24, "thorough": 600},
+    "rule": "the race schedule first, then random cases: 0–4 in-flight clients with stages from {accepted, mid-login, backend, backend, transfer}, 0–2 late connections, backend opening 0/300/600 ms after the stop; connection timeout 2 s; non-trivial = every case with an in-flight client or a late connection; distinct = distinct request lines",
+    "trusted_base": TB_LISTENER,
+    "assumptions": ["in-flight clients cooperate after the stop (those that do not are bounded by the connection timeout)"],
+    "timeout": {"quick": 1800, "thorough": 14400},
+}
+
 # properties not claimed yet (kept current; the reason is the honest status)
 NOT_YET = {f"C{i:02d}": "check not built yet in this round (planned per DESIGN.md §9); no claim is made until its check runs green" for i in range(1, 21)}
